@@ -41,6 +41,8 @@ type replayFile struct {
 	Overlay   string         `json:"overlay"`
 	Values    []replayVal    `json:"values"`
 	Decisions string         `json:"decisions,omitempty"`
+	Log       []decision     `json:"decision_log,omitempty"` // exact decisions, for the engine's deterministic replay
+	EngineOnly bool          `json:"engine_only,omitempty"`
 	Expect    replayExpect   `json:"expect"`
 	Detail    string         `json:"detail,omitempty"`
 	Stack     string         `json:"stack,omitempty"`
@@ -49,7 +51,8 @@ type replayFile struct {
 
 func violationToReplay(prop string, unit *CheckSpec, v *violation, overlayTag string) *replayFile {
 	rf := &replayFile{Property: prop, Package: unit.Package, Entry: v.Job.name, Cases: v.Job.cases, Overlay: overlayTag,
-		Decisions: decString(v.Decisions), Detail: v.Detail, Stack: v.Stack}
+		Decisions: decString(v.Decisions), Log: v.Decisions, Detail: v.Detail, Stack: v.Stack,
+		EngineOnly: v.Threads || v.Kind == "unsafe" || v.Kind == "race"}
 	for _, rv := range v.Vals {
 		var val uint64
 		if rv.T.IsConst() {
